@@ -127,6 +127,24 @@ def multi_abstract(rng, palette, dense=False):
                      "lig": rng.random() < 0.3}]}
 
 
+def crowd_abstract(rng, palette, n=20):
+    """A crowd: n test atoms within about 2 A of one another on the palette line (a collapsed region, a superposed
+    copy) - every atom has more neighbours inside the search radius than any real structure gives it."""
+    R, extra = palette["radius"], palette["extra"]
+    types = [t for t in palette["types"] if t in R]
+    short = [7, 9, 11, 13]        # 0.01 A: twenty atoms span less than 2.5 A
+    while True:
+        ts = [rng.choice(types) for _ in range(n)]
+        xs = [0]
+        for _ in range(n - 1):
+            xs.append(xs[-1] + rng.choice(short))
+        if not any(abs(xs[i] - xs[j]) - R[ts[i]] - R[ts[j]] in (0, extra) for i in range(n) for j in range(i + 1, n)):
+            break
+    test = [{"t": ts[i], "k": i, "r": 1 + i % 2, "occ": rng.choice([100, 100, 50]), "x": xs[i]} for i in range(n)]
+    return {"fam": "crowd", "axis": rng.randrange(3), "test": test,
+            "res": [{"chain": "A", "nuc": False}, {"chain": "B", "nuc": False}]}
+
+
 # ------------------------------------------------------------------ materialisation
 # atom names by type; index k selects the name (same (type, k) = same name)
 NAMES = {"C": ["C1'", "C2'", "C3'", "C4'", "C5'"], "N": ["N1", "N3", "N9", "N7"],
